@@ -24,6 +24,7 @@ from koala import graph_utils as gu
 from koala.lattice import Lattice, cut_boundaries
 
 
+DEFAULT_SCHEME = []     # the library's default colour scheme as a fresh interpreter sees it
 CLIPLOG = []          # (start, displacement, fraction) of judged images: compared with the Lean model `Plot.frac` (theorem fractions_sum_one)
 
 
@@ -74,7 +75,7 @@ def edge_artists(l, **kw):
         plt.close(fig)
 
 
-def judge_edges(ctx, name, l, subset_idx, labels_full, scheme, segs, cols, rep):
+def judge_edges(ctx, name, l, subset_idx, labels_full, scheme, segs, cols, rep, check_colours=True):
     """segments / colours of one plot_edges call against the statement"""
     P = l.vertices.positions; E = l.edges.indices; C = l.edges.crossing
     base = {int(i): (P[E[i][0]] - C[i], P[E[i][1]]) for i in subset_idx}
@@ -99,7 +100,7 @@ def judge_edges(ctx, name, l, subset_idx, labels_full, scheme, segs, cols, rep):
         if len(CLIPLOG) < 4000:
             CLIPLOG.append((p, (q[0] - p[0], q[1] - p[1]), f))
         want = rgba(scheme[int(labels_full[i])])
-        if c != want:
+        if check_colours and c != want:
             rep(f"image of edge {i} is drawn in colour {c}, its label {int(labels_full[i])} selects {want}"); return False
     bad = [i for i, f in cover.items() if f != 1]
     if bad:
@@ -201,9 +202,34 @@ def check_lattice(ctx, rng, name, l):
         segs, cols, arrows = edge_artists(l, labels=labels_full, color_scheme=scheme, directions=dirs)
         if len(arrows) != len(segs):
             rep(f"{len(arrows)} arrows for {len(segs)} drawn segments")
+        # the direction arrows are an extra: the segments drawn with them are judged exactly like those drawn without (a scalar direction as well)
+        elif judge_edges(ctx, name, l, np.arange(nE), labels_full, scheme, segs, cols, rep):
+            segs1, cols1, _ = edge_artists(l, labels=labels_full, color_scheme=scheme, directions=1)
+            judge_edges(ctx, name, l, np.arange(nE), labels_full, scheme, segs1, cols1, rep)
         ctx.case((name, "arrows"), nontrivial=True)
     except Exception as ex:
         rep(f"plot_edges with directions raised {type(ex).__name__}: {ex}")
+    # ---- the default colour scheme, before and after calls that use the color= override (with the default scheme, a list scheme and an array scheme):
+    #      the override applies to that call only
+    rep = lambda what, **kw: ctx.impl_violation(f"{name} [default scheme / color=]: {what}", dict(case=name, what="color-override", lattice=zoo.lat_to_json(l), **kw))
+    try:
+        default = [rgba(c) for c in DEFAULT_SCHEME]
+        lab3 = labels_full % min(3, len(default))
+        seq_ok = True
+        user_list = ["#1b9e77", "#d95f02", "#7570b3", "#e7298a"]; user_arr = np.array(user_list)
+        for step, kw in enumerate((dict(), dict(color="black"), dict(), dict(color="#123456", color_scheme=user_list), dict(color_scheme=user_list), dict(color="k", color_scheme=user_arr),
+                                   dict(color_scheme=user_arr), dict())):
+            segs, cols, _ = edge_artists(l, labels=lab3, **kw)
+            want_scheme = [rgba(c) for c in kw.get("color_scheme", DEFAULT_SCHEME)]
+            # what color= does to the colours of its own call is not part of the statement (matplotlib applies it to the whole collection): only the geometry of
+            # those calls is judged; the calls after them must again show the colours selected by the labels
+            if not judge_edges(ctx, name, l, np.arange(nE), lab3, want_scheme, segs, cols, rep, check_colours="color" not in kw):
+                seq_ok = False; break
+        if seq_ok and (user_list != ["#1b9e77", "#d95f02", "#7570b3", "#e7298a"] or user_arr.tolist() != user_list):
+            rep("a colour scheme passed by the caller was modified by the color= override")
+        ctx.case((name, "color-override"), nontrivial=True)
+    except Exception as ex:
+        rep(f"raised {type(ex).__name__}: {ex}")
     # ---- plaquettes
     try:
         F = l.n_plaquettes
@@ -273,6 +299,9 @@ def run(ctx):
     ctx.rule = ("one evaluation = one plotting call (lattice, element kind, subset form, label form) judged on its matplotlib artists, or one segment pair of the "
                 "intersection helper compared with the exact model; non-trivial = selection containing boundary-crossing elements; distinct by the call")
     ctx.run_audit()
+    global DEFAULT_SCHEME
+    ref = core.fresh_eval(["np.array(list(pl.colourblind_friendly_scheme) if hasattr(pl, 'colourblind_friendly_scheme') else [])"], preamble="import numpy as np\nfrom koala import plotting as pl")[0]
+    DEFAULT_SCHEME = [str(x) for x in ref] if not isinstance(ref, Exception) and len(ref) else [str(x) for x in getattr(pl, "colourblind_friendly_scheme", [])]
     rng = np.random.default_rng(ctx.seed)
     quick = ctx.tier == "quick"
     lats = [("honey2", eg.honeycomb_lattice(2)), ("hso1", eg.hex_square_oct_lattice(1)), ("square23", eg.square_lattice(2, 3)), ("trinon2", eg.tri_non_lattice(2)),
@@ -429,6 +458,25 @@ def run(ctx):
             ctx.count("intersection_end_point_contacts_excluded")
         ctx.case(("intersect", i), nontrivial=exact)
     ctx.count("intersection_pairs_compared", len(allp))
+    # the same pairs scaled down by exact powers of two (coordinates of order 1e-3 .. 1e-4): the verdict of exact arithmetic does not change, the helper's fixed
+    # tolerance (1e-14 on cross products of order 1e-11 and larger here) must not change it either
+    for sh in (10, 12, 13):
+        sc = 2.0 ** -sh
+        for i in range(len(special), min(len(allp), len(special) + (80 if quick else 600))):
+            if o["hit"][i] is None:
+                continue
+            s1, e1, s2, e2 = [tuple(Fraction(int(x), G) for x in allp[i][k]) for k in range(4)]
+            d1 = (e1[0] - s1[0], e1[1] - s1[1]); d2 = (e2[0] - s2[0], e2[1] - s2[1])
+            den = d1[0] * d2[1] - d1[1] * d2[0]
+            a = ((s2[0] - s1[0]) * d2[1] - (s2[1] - s1[1]) * d2[0]) / den
+            b = ((s2[0] - s1[0]) * d1[1] - (s2[1] - s1[1]) * d1[0]) / den
+            if min(abs(a), abs(1 - a), abs(b), abs(1 - b)) < Fraction(1, 10 ** 6) or abs(den) * Fraction(sc) ** 2 < Fraction(1, 10 ** 12):
+                continue                                       # end-point contacts, and pairs that this scale makes parallel within the helper's own tolerance
+            g = bool(pl.line_intersection(lines1[i:i + 1] * sc, lines2[i:i + 1] * sc)[0, 0])
+            if g != bool(o["hit"][i]):
+                ctx.impl_violation(f"line_intersection gives {g} for a segment pair scaled by 2^-{sh} that {'shares a' if o['hit'][i] else 'shares no'} point in exact arithmetic",
+                                   dict(case=f"pair#{i}@2^-{sh}", pair=(allp[i] / G * sc).tolist())); break
+            ctx.case(("intersect-scaled", sh, i), nontrivial=bool(o["hit"][i]))
     ctx.assumptions += ["matplotlib renders the artists it is handed (LineCollection segments, PolyCollection paths, scatter offsets) - the artists, not pixels, are judged",
                         "the visible-image rule (crosses the cell or fully inside <=> meets the open cell) is not proved: it is decided per drawn image by exact clipping",
                         "polygon coverage is decided by exact clipping (Fractions) of every periodic image of every selected plaquette against the unit cell - each image of positive area must be drawn, once - and on a 17x17 generic sample grid with float point-in-polygon tests"]
